@@ -47,7 +47,7 @@ PROP = {
             "prefix/db blacklists; (4) closed-loop histories: two site doubles, both links = real parser over the encoded stream + real "
             "execBisyncUnit (sync and journal mode, real frontier coordinator onCommitted/flush) / execBisyncRdbUnit / checkpoint-hash and "
             "namespace-mode writes through a real RedisConn into the shared target double whose request log is executed at the destination site; "
-            "10-70 events per history (client commands and transactions at both sites, clients poking the reserved namespace, ticks incl. >24 h, "
+            "10-70 events per history (client commands and transactions at both sites incl. transactions of 9-40 and 65-200 commands, clients poking the reserved namespace, ticks incl. >24 h, "
             "expiry visits incl. marker keys, link steps, snapshot units, bookkeeping), then a drain. Monitors: nothing the tool wrote comes back "
             "as a unit or halts the opposite link; every vouched client/expiry block comes out; each applied exactly once; units committed during "
             "the drain <= pending client blocks; commit = one MULTI of marker + business + record(+index); every stand-alone request the tool "
@@ -80,7 +80,21 @@ PROP = {
                 "TTL — the tool sets none on non-marker keys and clients stay out of the namespace); that store invariant is not derived",
                 "foreign_never_suppressed_stmt (hypothesis on keys only) is kept as a def: the code's namespace test looks at the first argument of every "
                 "command, so a key-less command whose first argument carries a reserved prefix (PUBLISH redis-gunyu-bisync:…) is skipped; the proved "
-                "theorem carries the first-argument hypothesis (fgn_of_keys shows it follows from the keys hypothesis when the first argument is a key)"],
+                "theorem carries the first-argument hypothesis (fgn_of_keys shows it follows from the keys hypothesis when the first argument is a key)",
+                "the closed-loop world is a STANDALONE pair (vfc13NewWorld builds both outputs with cluster=false): in cluster mode the parser is covered by the parse ops "
+                "and the commit shape / routing by C18, but no history runs the real loops against a cluster target (lane routing unit.Slot % lanes, "
+                "execBisyncRdbGlobalUnit are outside C13's loop); the two links are two syncers (input names in-A / in-B, run ids runid-A / runid-B)",
+                "snapshot phase: snapshot units (1-150 commands, the >64 ones counted) are sent by the real execBisyncRdbUnit and enter the closed loop as the block the "
+                "target received (monitors: one MULTI, marker first, no block without marker); how buildBisyncRdbReplayUnit expands a value into commands is C20 / C18",
+                "drain_reaches is an existence statement (there IS a finite drain ending Settled, after which link steps are no-ops); that EVERY fair schedule drains "
+                "follows in substance from link_step_progress + drain_bound but is not stated as a theorem; a link step is one whole block committed atomically",
+                "databases: the closed loop, the model and every theorem have one keyspace; D31 is measured by a side probe (2 streams x 2 links x 3 modes through the real "
+                "loops), not by the exactly-once monitor; recognition of a mirrored block behind a SELECT and the db blacklist vs mirrored blocks are examined by parse ops only",
+                "monitors named tie-shape:* (commit-shape: marker + business + exactly one record (+index) in that order; unmodelled-bookkeeping-traffic: a stand-alone "
+                "request with no form in the Lean Bookkeeping vocabulary) and the expected_facts text pins ask for more than the property (the property needs 'marker first, "
+                "one MULTI' and 'skipped by the opposite parser'); they guard the model's correspondence and are labelled as such",
+                "./check C13 --replay FILE re-runs the one history / corpus script / database probe the file names (replay.rerun); parse-op and propagation-double "
+                "differences are model diffs whose op line is the input"],
 }
 
 MANIFEST = {
